@@ -20,3 +20,5 @@ cd /repo && git checkout -- . && trap - EXIT
 if [ -f "$D/demo.py" ]; then
   PYTHONPATH=/repo /venv/bin/python "$D/demo.py" >/dev/null 2>&1; echo "demo without patch: exit $? (expected 0)"
 fi
+# the generated Lean files must describe the clean tree again
+cd /repo && git checkout -- . 2>/dev/null; cd /verif && for g in gen_tables py2lean g4_tables; do PYTHONPATH=/repo /venv/bin/python harness/$g.py >/dev/null 2>&1; done
